@@ -167,6 +167,43 @@ def r89(F):
     return r
 
 
+
+def r89t(F):
+    r = RuleResult("R89t", "dependencies are indexed before the files that import them",
+                   "topo_sort_files is a post-order depth-first walk with an explicit stack: a file is marked visited when it is "
+                   "taken off the stack to be expanded, not when it is queued - marking at queue time emits a file that two others "
+                   "import after the first of them, so that one is analysed against a cache that lacks it", floor=2)
+    name = "ucglib::lsp::workspace::topo_sort_files"
+    fn = F.fn(name)
+    need(fn is not None, "topo_sort_files not found")
+    loops = cfg.natural_loops(fn)
+    pops = [b for b, t in fn.calls() if callee(t).endswith("::pop") and "Vec" in callee(t)]
+    # the walk: the innermost loop around the pop
+    walks = [body for h, body in loops.items() if any(pb in body for pb in pops)]
+    need(walks, "topo_sort_files: no loop around a stack pop (a different algorithm is not modelled)")
+    walk = min(walks, key=len)
+    marks = [(b, t) for b, t in fn.calls() if callee(t).endswith("::insert") and "HashSet" in callee(t)
+             and "PathBuf" in fn.local_ty(op_local(t["args"][0]) or 0) and b in walk]
+    need(marks and pops, "topo_sort_files: no visited set / explicit stack found (a different algorithm is not modelled)")
+    for i, (b, t) in enumerate(marks):
+        src = util.source_calls(fn, t["args"][1])
+        from_pop = any(c[0].endswith("::pop") for c in src if c[0] != "param")
+        other = sorted({c[0].split("::")[-1] for c in src if c[0] != "param" and not c[0].endswith("::pop")} |
+                       {"parameter" for c in src if c[0] == "param"})
+        ok = from_pop and not other
+        r.inst("topo_sort_files:visited-mark#%d" % i, fn.where(b), ok,
+               "the file marked is the one just taken off the stack" if ok else
+               "a file is marked visited from %s, i.e. when it is queued, not when it is expanded: a file imported from two places is emitted too late" % (other or ["an unknown source"]))
+    # the result is pushed only for entries taken off the stack (post-order emission)
+    emits = [(b, t) for b, t in fn.calls() if callee(t).endswith("::push") and "Vec" in callee(t) and
+             fn.local_ty(op_local(t["args"][0]) or 0).replace(" ", "").endswith("Vec<std::path::PathBuf>") ]
+    for i, (b, t) in enumerate(emits):
+        src = util.source_calls(fn, t["args"][1])
+        ok = any(c[0].endswith("::pop") for c in src if c[0] != "param") and not any(c[0].endswith("::next") for c in src if c[0] != "param")
+        r.inst("topo_sort_files:emit#%d" % i, fn.where(b), ok, "emitted when taken off the stack after its imports" if ok else
+               "a file is put into the order at another point than when its stack entry comes back")
+    return r
+
 from .c04 import r76x as _r76x
 
-RULES = [r13l, r40, r41, r42, r89, _r76x]
+RULES = [r13l, r40, r41, r42, r89, r89t, _r76x]
